@@ -24,7 +24,7 @@ ANCHORS = [
 
 
 def plan(tier, seed):
-    return common.add_m9_shard(common.plan_shards(tier, seed, n_quick=60, n_thorough=500, budget_quick=35, budget_thorough=420, pops=True), tier)
+    return common.add_m9_shard(common.plan_shards(tier, seed, n_quick=80, n_thorough=500, budget_quick=35, budget_thorough=420, pops=True), tier)
 
 
 def gates(tier):
